@@ -172,53 +172,68 @@ type listener struct {
 	bs       *bootstrap
 	url      string
 	option   []transport.Option
+	mutex    sync.Mutex // guards options and acceptor
 	options  *transport.Options
 	acceptor transport.Acceptor
 }
 
 // Acceptor returned the acceptor
 func (l *listener) Acceptor() transport.Acceptor {
+	l.mutex.Lock()
+	defer l.mutex.Unlock()
 	return l.acceptor
 }
 
 // Close listener
 func (l *listener) Close() error {
 	l.bs.removeListener(l.url)
-	if l.acceptor != nil {
-		return l.acceptor.Close()
+	if acceptor := l.Acceptor(); acceptor != nil {
+		return acceptor.Close()
 	}
 	return nil
+}
+
+// listen creates the acceptor
+func (l *listener) listen() (transport.Acceptor, *transport.Options, error) {
+	l.mutex.Lock()
+	defer l.mutex.Unlock()
+
+	if nil != l.acceptor {
+		return nil, nil, fmt.Errorf("duplicate call Listener:Sync")
+	}
+
+	var err error
+	if l.options, err = transport.ParseOptions(l.bs.Context(), l.url, l.option...); nil != err {
+		return nil, nil, err
+	}
+
+	if l.acceptor, err = l.bs.transportFactory.Listen(l.options); nil != err {
+		return nil, nil, err
+	}
+	return l.acceptor, l.options, nil
 }
 
 // Sync accept new transport from listener
 func (l *listener) Sync() error {
 
-	if nil != l.acceptor {
-		return fmt.Errorf("duplicate call Listener:Sync")
-	}
-
-	var err error
-	if l.options, err = transport.ParseOptions(l.bs.Context(), l.url, l.option...); nil != err {
-		return err
-	}
-
-	if l.acceptor, err = l.bs.transportFactory.Listen(l.options); nil != err {
+	acceptor, options, err := l.listen()
+	if nil != err {
 		return err
 	}
 
 	for {
 		// accept the transport
-		t, err := l.acceptor.Accept()
+		t, err := acceptor.Accept()
 		if nil != err {
 			select {
-			case <-l.options.Context.Done():
+			case <-options.Context.Done():
 				return ErrServerClosed
 			default:
 				return err
 			}
 		}
 
-		l.bs.ServeChannel(l.options.Context, t, l.options.Attachment, true)
+		l.bs.ServeChannel(options.Context, t, options.Attachment, true)
 	}
 }
 
